@@ -235,7 +235,20 @@ struct Fit {
     pred: Vec<f64>,
 }
 
+thread_local! {
+    /// what happened to the model object before the fit that is judged: 0 = nothing (fresh object),
+    /// 1 = a fit with a budget of one iteration (normally an Err), 2 = a fit to the reversed response
+    static HISTORY: std::cell::Cell<u8> = std::cell::Cell::new(0);
+}
+fn with_history<T>(h: u8, f: impl FnOnce() -> T) -> T {
+    HISTORY.with(|c| c.set(h));
+    let r = f();
+    HISTORY.with(|c| c.set(0));
+    r
+}
+
 fn run_fit(inst: &Inst, max_iter: usize) -> Result<Result<Fit, String>, String> {
+    let hist = HISTORY.with(|c| c.get());
     guard(|| {
         let mut g = GLM::new(inst.fam.real());
         g.set_penalty(inst.alpha).set_tolerance(inst.tol);
@@ -244,6 +257,17 @@ fn run_fit(inst: &Inst, max_iter: usize) -> Result<Result<Fit, String>, String> 
         }
         if let Some(o) = &inst.off {
             g.set_offset(o);
+        }
+        // the property speaks about every fit that reports success, not only the first fit of an object
+        match hist {
+            1 => {
+                let _ = g.fit(&inst.x, &inst.y, 1);
+            }
+            2 => {
+                let yr: Vec<f64> = inst.y.iter().rev().cloned().collect();
+                let _ = g.fit(&inst.x, &yr, 25);
+            }
+            _ => {}
         }
         match g.fit(&inst.x, &inst.y, max_iter) {
             Err(e) => Err(e.to_string()),
@@ -264,7 +288,15 @@ fn judge(run: &Run, inst: &Inst, max_iter: usize, has_mle: bool) {
     run.tr();
     let fam = inst.fam.name();
     let acls = if inst.alpha == 0.0 { "alpha=0" } else if inst.alpha == 1.0 { "alpha=1" } else { "alpha-other" };
-    let desc = || format!("{} max_iter={}", inst.describe(), max_iter);
+    let hist = HISTORY.with(|c| c.get());
+    let desc = || format!("{} max_iter={}{}", inst.describe(), max_iter, match hist {
+        1 => " [same object after a fit with max_iter=1]",
+        2 => " [same object after a fit to the reversed response]",
+        _ => "",
+    });
+    if hist != 0 {
+        run.regime("refit-on-used-object");
+    }
     match run_fit(inst, max_iter) {
         Err(p) => {
             // a panic is neither Ok nor Err: for a well-posed instance it is a failure to answer
@@ -439,12 +471,23 @@ pub fn run(run: &Run) {
                                         for k in [2usize, 3, 4, 6, 10, 25] {
                                             judge(run, &inst, k, has_mle);
                                         }
+                                        if code % 4 == 1 {
+                                            with_history(1, || judge(run, &inst, 25, has_mle));
+                                            with_history(2, || judge(run, &inst, 25, has_mle));
+                                        }
                                     } else {
                                         // quick: the full budget on every instance, small budgets on a third
                                         judge(run, &inst, 25, has_mle);
                                         if code % 3 == 0 {
                                             judge(run, &inst, 3, has_mle);
                                             judge(run, &inst, 5, has_mle);
+                                        }
+                                        // the same model object used before: after a fit that ran out of
+                                        // iterations, after a fit to other data
+                                        if code % 8 == 5 {
+                                            with_history(1, || judge(run, &inst, 25, has_mle));
+                                        } else if code % 8 == 6 {
+                                            with_history(2, || judge(run, &inst, 25, has_mle));
                                         }
                                     }
                                 }
@@ -510,6 +553,10 @@ pub fn run(run: &Run) {
                             }
                             for k in [3usize, 8, 50] {
                                 judge(run, &inst, k, has_mle);
+                            }
+                            if tol == 1e-12 {
+                                with_history(1, || judge(run, &inst, 50, has_mle));
+                                with_history(2, || judge(run, &inst, 50, has_mle));
                             }
                         }
                     }
@@ -614,7 +661,7 @@ pub fn run(run: &Run) {
     for f in fams {
         run.require_regime(&format!("ok:{}", f.name()));
     }
-    for r in ["gaussian-coincides-with-least-squares", "fit-reports-error", "standard-errors-ok", "permutation-invariant", "instance-with-mle"] {
+    for r in ["refit-on-used-object", "gaussian-coincides-with-least-squares", "fit-reports-error", "standard-errors-ok", "permutation-invariant", "instance-with-mle"] {
         run.require_regime(r);
     }
     run.assume("score equations 'to within the convergence tolerance': Newton decrement² sᵀ(I+αD)⁻¹s ≤ 10·tol·(1+deviance) at the returned coefficients, evaluated in double-double; for the Gaussian family (quadratic objective, 'coincides with least squares') the decrement² must be at rounding level, ≤ 1e-16·(1+Σw(y−offset)²), whatever the tolerance");
